@@ -234,18 +234,58 @@ func c12(c *Ctx) {
 					rv := retResult(ret, k)
 					if ex0 != nil && dependsOn(rv, func(v ssa.Value) bool { return v == ex0 }) {
 						returned = true
-						okG, notCanceled := false, false
-						for _, g := range guardsAt(ret.Block()) {
-							if g.Cond == ex1 && g.Pol {
-								okG = true
+						// the looked-up value may reach the return directly or as one incoming edge of a phi (single-exit
+						// style): in the latter case the conditions known on that edge count
+						var ways [][]Guard
+						var findWays func(v ssa.Value, extra []Guard, depth int)
+						findWays = func(v ssa.Value, extra []Guard, depth int) {
+							if depth > 4 {
+								return
 							}
-							if cl, ok := g.Cond.(*ssa.Call); ok && !g.Pol && cl.Call.IsInvoke() && cl.Call.Method.Name() == "Canceled" && cl.Call.Value == ex0 {
-								notCanceled = true
-							}
-							if cl, ok := g.Cond.(*ssa.Call); ok && !g.Pol && !cl.Call.IsInvoke() {
-								if cal := staticCallee(cl.Common()); cal != nil && cal.Name() == "Canceled" && len(cl.Call.Args) > 0 && dependsOn(cl.Call.Args[0], func(v ssa.Value) bool { return v == ex0 }) {
-									notCanceled = true
+							switch x := v.(type) {
+							case *ssa.TypeAssert:
+								findWays(x.X, extra, depth+1)
+							case *ssa.ChangeInterface:
+								findWays(x.X, extra, depth+1)
+							case *ssa.MakeInterface:
+								findWays(x.X, extra, depth+1)
+							case *ssa.Phi:
+								for ei, e := range x.Edges {
+									if dependsOn(e, func(w ssa.Value) bool { return w == ex0 }) {
+										findWays(e, append(append([]Guard{}, extra...), knownAtEdge(x.Block().Preds[ei], x.Block())...), depth+1)
+									}
 								}
+							default:
+								if v == ex0 || dependsOn(v, func(w ssa.Value) bool { return w == ex0 }) {
+									ways = append(ways, extra)
+								}
+							}
+						}
+						findWays(rv, guardsAt(ret.Block()), 0)
+						if len(ways) == 0 {
+							ways = append(ways, guardsAt(ret.Block()))
+						}
+						okG, notCanceled := true, true
+						for _, gs := range ways {
+							wOK, wNC := false, false
+							for _, g := range gs {
+								if g.Cond == ex1 && g.Pol {
+									wOK = true
+								}
+								if cl, ok := g.Cond.(*ssa.Call); ok && !g.Pol && cl.Call.IsInvoke() && cl.Call.Method.Name() == "Canceled" && cl.Call.Value == ex0 {
+									wNC = true
+								}
+								if cl, ok := g.Cond.(*ssa.Call); ok && !g.Pol && !cl.Call.IsInvoke() {
+									if cal := staticCallee(cl.Common()); cal != nil && cal.Name() == "Canceled" && len(cl.Call.Args) > 0 && dependsOn(cl.Call.Args[0], func(v ssa.Value) bool { return v == ex0 }) {
+										wNC = true
+									}
+								}
+							}
+							if !wOK {
+								okG = false
+							}
+							if !wNC {
+								notCanceled = false
 							}
 						}
 						r.Check(okG && notCanceled, "C12.R5", "cached mocker handed back in "+shortName(f)+" map "+fv.Name(), p.Pos(posOf(ret)), "returned only if found and not cancelled",
